@@ -318,7 +318,7 @@ namespace AIToolbox::Factored {
         for ( ; factor < F.size(); ++factor ) {
             auto & v = ids_[factor];
             auto it = std::lower_bound(std::begin(v.back()), std::end(v.back()), id);
-            if (*it == id)
+            if (it != std::end(v.back()) && *it == id)
                 v.back().erase(it);
         }
     }
